@@ -259,7 +259,7 @@ def run(prop, args, seed, t0):
         bad = [o for o in r["obligations"] if o["verdict"] not in ("discharged", "reachable")]
         print(f"  {r['unit']:<40} {st:<12} {len(r['obligations'])-len(bad)}/{len(r['obligations'])} {r['wall_s']}s")
         for o in bad:
-            print(f"      {o['verdict']}: {o['name']}  model={json.dumps(o.get('model'), default=str)[:600] if o.get('model') else None}")
+            print(f"      {o['verdict']}: {o['name']}  model={json.dumps(o.get('model'), default=str)[:240] if o.get('model') else None}")
     if problems:
         for p in problems:
             print("CHECKER-PROBLEM:", p)
